@@ -331,13 +331,15 @@ Perturb1(b) ==
   \cup { [b EXCEPT !.verb = v, !.ptag = Tag(b, "verb:" \o v)] : v \in {"HEAD", "OPTIONS", "FETCH", "get", "DELETE"} }
   \cup { [b EXCEPT !.anns = [j \in DOMAIN b.anns |-> IF j = i THEN BadAlias(b.anns[j], j) ELSE b.anns[j]], !.ptag = Tag(b, "badAlias:" \o b.anns[i].kind)] : i \in DOMAIN b.anns }
   \cup { [b EXCEPT !.anns = [j \in DOMAIN b.anns |-> IF b.anns[j].kind = "Path" THEN BadAlias(b.anns[j], j) ELSE b.anns[j]], !.ptag = Tag(b, "badAliasAllPaths")] }
-Perturb2(b) == UNION {Perturb1(x) : x \in Perturb1(b)}
+\* (two parameters renamed to the same name do not compile: outside the property's domain)
+SigNamesDistinct(b) == \A i, j \in DOMAIN b.sig : i # j => b.sig[i].name # b.sig[j].name
+Perturb2(b) == {y \in UNION {Perturb1(x) : x \in Perturb1(b)} : SigNamesDistinct(y)}
 \* lint material: a property the annotation does not know (a warning at most) - the route stays exactly as well-linked as it was.
 \* Combined with every error perturbation (a warning on an annotation must not mask an error on the same or another annotation)
 Stray(b) ==
        { [b EXCEPT !.anns[i].extra = "example: \"abc\"", !.ptag = Tag(b, "strayProp:" \o b.anns[i].kind)] : i \in DOMAIN b.anns }
   \cup { [b EXCEPT !.verbProps = "note: \"x\"", !.ptag = Tag(b, "strayVerbProp")] }
-PerturbMask(b) == UNION {Perturb1(x) : x \in Stray(b)}
+PerturbMask(b) == {y \in UNION {Perturb1(x) : x \in Stray(b)} : SigNamesDistinct(y)}
 \* ---- C18: the SAME offending annotation line in two methods (whatever is remembered per line text must not carry a position) ----
 SameBad(b) == [b EXCEPT !.anns = [j \in DOMAIN b.anns |-> IF b.anns[j].kind = "Path" THEN [BadAlias(b.anns[j], 5) EXCEPT !.value = b.anns[j].value] ELSE b.anns[j]],
                         !.ptag = Tag(b, "sameBadAlias")]
